@@ -184,3 +184,311 @@ Proof.
   assert (cU : canon_u U) by (rewrite Forall_forall in HG; eapply HG, nth_error_In, HU).
   change dim_one with u_none. unfold is_none. now rewrite <- (canon_dim_eq U u_none cU canon_none), u_eqb_eq.
 Qed.
+
+(* =============================================================================================================
+   Extension: tensors of quantities, math functions, element access (typeofX / dim_of / qevalX)
+   ============================================================================================================= *)
+Definition ty_dim (t : ty) : dim := match t with TS => dim_one | TQ u => u end.
+Definition sdecl (d : decl) : sdim := (d_shape d, ty_dim (d_ty d)).
+Definition canon_decl (d : decl) : Prop := canon_ty (d_ty d).
+
+Lemma dim_eq_refl a : dim_eq a a.
+Proof. unfold dim_eq. induction a; constructor; [reflexivity | assumption]. Qed.
+Lemma dim_eq_sym a : forall b, dim_eq a b -> dim_eq b a.
+Proof. unfold dim_eq. induction 1; constructor; [now symmetry | assumption]. Qed.
+Lemma dim_eq_trans a : forall b c, dim_eq a b -> dim_eq b c -> dim_eq a c.
+Proof.
+  unfold dim_eq. intros b c H. revert c. induction H; intros c Hc; inversion Hc; subst; constructor; [etransitivity; eassumption | auto].
+Qed.
+Lemma dim_eqb_spec a : forall b, dim_eqb a b = true <-> dim_eq a b.
+Proof.
+  unfold dim_eq. induction a as [|x a IH]; destruct b as [|y b]; simpl.
+  - split; [constructor | reflexivity].
+  - split; [discriminate | intro H; inversion H].
+  - split; [discriminate | intro H; inversion H].
+  - rewrite andb_true_iff, Qeq_bool_iff, IH. split; [intros [? ?]; now constructor | intro H; inversion H; auto].
+Qed.
+Lemma dim_eqb_compat a a' b b' : dim_eq a a' -> dim_eq b b' -> dim_eqb a b = dim_eqb a' b'.
+Proof.
+  intros Ha Hb. destruct (dim_eqb a b) eqn:E1, (dim_eqb a' b') eqn:E2; try reflexivity.
+  - rewrite dim_eqb_spec in E1. assert (dim_eq a' b') by (eapply dim_eq_trans; [apply dim_eq_sym, Ha | eapply dim_eq_trans; eassumption]).
+    rewrite <- dim_eqb_spec in H. congruence.
+  - rewrite dim_eqb_spec in E2. assert (dim_eq a b) by (eapply dim_eq_trans; [apply Ha | eapply dim_eq_trans; [eassumption | apply dim_eq_sym, Hb]]).
+    rewrite <- dim_eqb_spec in H. congruence.
+Qed.
+Lemma zipw_compat (f g : Q -> Q -> Q) : (forall x y x' y', x == x' -> y == y' -> f x y == g x' y') ->
+  forall a a' b b', dim_eq a a' -> dim_eq b b' -> dim_eq (zipw f a b) (zipw g a' b').
+Proof.
+  intros H a a' b b' Ha. revert b b'. unfold dim_eq, zipw in *. induction Ha as [|x x' a a' Hx Ha IH]; intros b b' Hb; [constructor|].
+  destruct Hb as [|y y' b b' Hy Hb]; simpl; constructor; [now apply H | now apply IH].
+Qed.
+Lemma u_add_dim a a' b b' : dim_eq a a' -> dim_eq b b' -> dim_eq (u_add a b) (dim_mul a' b').
+Proof. intros Ha Hb. apply zipw_compat; [|assumption|assumption]. intros x y x' y' Hx Hy. rewrite ue_add_Q. now rewrite Hx, Hy. Qed.
+Lemma u_sub_dim a a' b b' : dim_eq a a' -> dim_eq b b' -> dim_eq (u_sub a b) (dim_div a' b').
+Proof. intros Ha Hb. apply zipw_compat; [|assumption|assumption]. intros x y x' y' Hx Hy. rewrite ue_sub_Q. now rewrite Hx, Hy. Qed.
+Lemma dim_mul_compat a a' b b' : dim_eq a a' -> dim_eq b b' -> dim_eq (dim_mul a b) (dim_mul a' b').
+Proof. intros Ha Hb. apply zipw_compat; [|assumption|assumption]. intros x y x' y' Hx Hy. now rewrite Hx, Hy. Qed.
+Lemma dim_div_compat a a' b b' : dim_eq a a' -> dim_eq b b' -> dim_eq (dim_div a b) (dim_div a' b').
+Proof. intros Ha Hb. apply zipw_compat; [|assumption|assumption]. intros x y x' y' Hx Hy. now rewrite Hx, Hy. Qed.
+Lemma u_pow_dim n d a a' : dim_eq a a' -> dim_eq (u_pow n d a) (dim_pow (n # d) a').
+Proof. unfold dim_eq, u_pow, dim_pow. induction 1; simpl; constructor; [rewrite ue_mul_Q; now rewrite H | assumption]. Qed.
+Lemma dim_pow_compat r a a' : dim_eq a a' -> dim_eq (dim_pow r a) (dim_pow r a').
+Proof. unfold dim_eq, dim_pow. induction 1; simpl; constructor; [now rewrite H | assumption]. Qed.
+
+(* well-formed element type: 7 exponents in lowest terms *)
+Definition wf_u (u : unit) : Prop := canon_u u /\ length u = 7%nat.
+Definition wf_ty (t : ty) : Prop := match t with TS => True | TQ u => wf_u u end.
+Definition wf_decl (d : decl) : Prop := wf_ty (d_ty d).
+Lemma wf_canon t : wf_ty t -> canon_ty t.
+Proof. destruct t; simpl; [auto | intros [? ?]; assumption]. Qed.
+Lemma wf_none : wf_u u_none.
+Proof. split; [apply canon_none | reflexivity]. Qed.
+Lemma zipw_length {A B C} (f : A -> B -> C) a : forall b n, length a = n -> length b = n -> length (zipw f a b) = n.
+Proof.
+  unfold zipw. induction a as [|x a IH]; destruct b as [|y b]; simpl; intros n Ha Hb; try congruence.
+  destruct n; [discriminate|]. f_equal. apply IH; congruence.
+Qed.
+Lemma wf_add u v : wf_u u -> wf_u v -> wf_u (u_add u v).
+Proof. intros [_ lu] [_ lv]. split; [apply canon_zipw, ue_add_canon | now apply zipw_length]. Qed.
+Lemma wf_sub u v : wf_u u -> wf_u v -> wf_u (u_sub u v).
+Proof. intros [_ lu] [_ lv]. split; [apply canon_zipw, ue_sub_canon | now apply zipw_length]. Qed.
+Lemma wf_pow n d u : wf_u u -> wf_u (u_pow n d u).
+Proof. intros [_ lu]. split; [apply canon_pow | unfold u_pow; now rewrite map_length]. Qed.
+Lemma dim_eq_length a : forall b, dim_eq a b -> length a = length b.
+Proof. unfold dim_eq. induction 1; simpl; congruence. Qed.
+Lemma wf_dim_len t d : wf_ty t -> dim_eq (ty_dim t) d -> length d = 7%nat.
+Proof.
+  intros W E. apply dim_eq_length in E. rewrite <- E. destruct t; simpl in *; [reflexivity | apply W].
+Qed.
+Ltac d7 d H := do 8 (destruct d as [|? d]; try discriminate H).
+Lemma dim_mul_one_l d : length d = 7%nat -> dim_eq d (dim_mul dim_one d).
+Proof. intro H. d7 d H. unfold dim_eq, dim_mul, zipw, dim_one. simpl. repeat constructor; symmetry; apply Qplus_0_l. Qed.
+Lemma dim_mul_one_r d : length d = 7%nat -> dim_eq d (dim_mul d dim_one).
+Proof. intro H. d7 d H. unfold dim_eq, dim_mul, zipw, dim_one. simpl. repeat constructor; symmetry; apply Qplus_0_r. Qed.
+Lemma dim_div_one_r d : length d = 7%nat -> dim_eq d (dim_div d dim_one).
+Proof.
+  intro H. d7 d H. unfold dim_eq, dim_div, zipw, dim_one. simpl. repeat constructor; unfold Qminus; symmetry; apply Qplus_0_r.
+Qed.
+
+(* relation between what the typing computes and what the specification computes *)
+Definition Rt (x : option ty) (y : option dim) : Prop :=
+  match x, y with
+  | Some t, Some d => wf_ty t /\ dim_eq (ty_dim t) d
+  | None, None => True
+  | _, _ => False
+  end.
+Definition Rx (x : option xty) (y : option sdim) : Prop :=
+  match x, y with
+  | Some (s, t), Some (s', d) => s = s' /\ wf_ty t /\ dim_eq (ty_dim t) d
+  | None, None => True
+  | _, _ => False
+  end.
+Lemma Rx_bin fs ft fd x y x' y' :
+  (forall t1 t2 d1 d2, wf_ty t1 -> wf_ty t2 -> dim_eq (ty_dim t1) d1 -> dim_eq (ty_dim t2) d2 -> Rt (ft t1 t2) (fd d1 d2)) ->
+  Rx x x' -> Rx y y' -> Rx (xbin fs ft x y) (sbin fs fd x' y').
+Proof.
+  intros H Hx Hy. destruct x as [[s1 t1]|], x' as [[s1' d1]|]; simpl in Hx; try contradiction; [|destruct y as [[? ?]|]; exact I].
+  destruct y as [[s2 t2]|], y' as [[s2' d2]|]; simpl in Hy; try contradiction; [|exact I].
+  destruct Hx as (<- & c1 & e1), Hy as (<- & c2 & e2). simpl. specialize (H t1 t2 d1 d2 c1 c2 e1 e2).
+  destruct (fs s1 s2); [|destruct (ft t1 t2), (fd d1 d2); simpl in *; tauto].
+  destruct (ft t1 t2), (fd d1 d2); simpl in *; tauto.
+Qed.
+Lemma Rx_sc1 f g x x' :
+  (forall t d, wf_ty t -> dim_eq (ty_dim t) d -> Rt (f t) (g d)) -> Rx x x' -> Rx (xsc1 f x) (ssc1 g x').
+Proof.
+  intros H Hx. destruct x as [[s t]|], x' as [[s' d]|]; simpl in Hx; try contradiction; [|exact I].
+  destruct Hx as (<- & c & e). specialize (H t d c e). destruct s; simpl; try exact I.
+  destruct (f t), (g d); simpl in *; tauto.
+Qed.
+Lemma canon_ty_dim_eq t1 t2 : wf_ty t1 -> wf_ty t2 -> forall d1 d2, dim_eq (ty_dim t1) d1 -> dim_eq (ty_dim t2) d2 ->
+  (ty_dim t1 = ty_dim t2 <-> dim_eqb d1 d2 = true).
+Proof.
+  intros c1 c2 d1 d2 e1 e2. rewrite <- (dim_eqb_compat _ _ _ _ e1 e2), dim_eqb_spec.
+  apply canon_dim_eq; [destruct t1 | destruct t2]; simpl; try apply canon_none; [apply c1 | apply c2].
+Qed.
+Lemma u_eqb_refl u : u_eqb u u = true.
+Proof. now apply u_eqb_eq. Qed.
+Lemma Rt_addsub t1 t2 d1 d2 : wf_ty t1 -> wf_ty t2 -> dim_eq (ty_dim t1) d1 -> dim_eq (ty_dim t2) d2 ->
+  Rt (ty_addsub t1 t2) (d_same d1 d2).
+Proof.
+  intros c1 c2 e1 e2. pose proof (canon_ty_dim_eq t1 t2 c1 c2 d1 d2 e1 e2) as [H1 H2]. unfold d_same.
+  destruct t1 as [|u], t2 as [|v]; simpl in *.
+  - rewrite (H1 eq_refl). simpl. auto.
+  - unfold is_none. destruct (u_eqb v u_none) eqn:E.
+    + apply u_eqb_eq in E. subst v. rewrite (H1 eq_refl). simpl. split; [apply wf_none | exact e1].
+    + destruct (dim_eqb d1 d2); [|exact I]. specialize (H2 eq_refl). change dim_one with u_none in H2. subst v.
+      rewrite u_eqb_refl in E. discriminate.
+  - unfold is_none. destruct (u_eqb u u_none) eqn:E.
+    + apply u_eqb_eq in E. subst u. rewrite (H1 eq_refl). simpl. split; [apply wf_none | exact e1].
+    + destruct (dim_eqb d1 d2); [|exact I]. specialize (H2 eq_refl). change dim_one with u_none in H2. subst u.
+      rewrite u_eqb_refl in E. discriminate.
+  - destruct (u_eqb u v) eqn:E.
+    + apply u_eqb_eq in E. subst v. rewrite (H1 eq_refl). simpl. auto.
+    + destruct (dim_eqb d1 d2); [|exact I]. specialize (H2 eq_refl). subst v. rewrite u_eqb_refl in E. discriminate.
+Qed.
+Lemma Rt_mul t1 t2 d1 d2 : wf_ty t1 -> wf_ty t2 -> dim_eq (ty_dim t1) d1 -> dim_eq (ty_dim t2) d2 -> Rt (t_mul t1 t2) (d_mul d1 d2).
+Proof.
+  intros c1 c2 e1 e2. pose proof (wf_dim_len _ _ c1 e1) as l1. pose proof (wf_dim_len _ _ c2 e2) as l2.
+  destruct t1 as [|u], t2 as [|v]; simpl in *.
+  - split; [exact I|]. eapply dim_eq_trans; [|apply (dim_mul_compat _ _ _ _ e1 e2)]. vm_compute. repeat constructor.
+  - split; [exact c2|]. eapply dim_eq_trans; [|apply (dim_mul_compat _ _ _ _ e1 e2)]. apply dim_mul_one_l, c2.
+  - split; [exact c1|]. eapply dim_eq_trans; [|apply (dim_mul_compat _ _ _ _ e1 e2)]. apply dim_mul_one_r, c1.
+  - split; [now apply wf_add | now apply u_add_dim].
+Qed.
+Lemma Rt_div t1 t2 d1 d2 : wf_ty t1 -> wf_ty t2 -> dim_eq (ty_dim t1) d1 -> dim_eq (ty_dim t2) d2 -> Rt (t_div t1 t2) (d_div d1 d2).
+Proof.
+  intros c1 c2 e1 e2. destruct t1 as [|u], t2 as [|v]; simpl in *.
+  - split; [exact I|]. eapply dim_eq_trans; [|apply (dim_div_compat _ _ _ _ e1 e2)]. vm_compute. repeat constructor.
+  - split; [apply wf_sub; [apply wf_none | exact c2] | now apply u_sub_dim].
+  - split; [exact c1|]. eapply dim_eq_trans; [|apply (dim_div_compat _ _ _ _ e1 e2)]. apply dim_div_one_r, c1.
+  - split; [now apply wf_sub | now apply u_sub_dim].
+Qed.
+Lemma Rt_pow n d t x : wf_ty t -> dim_eq (ty_dim t) x -> Rt (Some (ty_pow n d t)) (Some (dim_pow (n # d) x)).
+Proof.
+  intros c e. destruct t as [|u]; simpl in *.
+  - split; [exact I|]. eapply dim_eq_trans; [|apply (dim_pow_compat _ _ _ e)]. unfold dim_one, dim_pow, dim_eq. simpl.
+    repeat constructor; symmetry; apply Qmult_0_l.
+  - split; [now apply wf_pow | now apply u_pow_dim].
+Qed.
+Lemma Rt_fn t x : wf_ty t -> dim_eq (ty_dim t) x -> Rt (ty_fn t) (d_fn x).
+Proof.
+  intros c e. unfold d_fn. rewrite <- (dim_eqb_compat _ _ _ _ e (dim_eq_refl dim_one)). destruct t as [|u]; simpl in *.
+  - split; [exact I | apply dim_eq_refl].
+  - unfold is_none. destruct (u_eqb u u_none) eqn:E.
+    + apply u_eqb_eq in E. subst u. simpl. split; [exact I | apply dim_eq_refl].
+    + destruct (dim_eqb u dim_one) eqn:E2; [|exact I]. apply dim_eqb_spec in E2.
+      apply (canon_dim_eq u u_none (proj1 c) canon_none) in E2. subst u. rewrite u_eqb_refl in E. discriminate.
+Qed.
+
+(* soundness and completeness of the extended typing w.r.t. the specification: the typing succeeds exactly when the
+   expression is homogeneous (and well-shaped), with the same shape and the same dimension; computed units are
+   7 exponents in lowest terms *)
+Lemma typeofX_spec G e : Forall wf_decl G -> Rx (typeofX G e) (dim_of (map sdecl G) e).
+Proof.
+  intro HG. induction e; simpl.
+  - rewrite nth_error_map. destruct (nth_error G i) as [d|] eqn:E; simpl; [|exact I].
+    split; [reflexivity|]. split; [|apply dim_eq_refl]. rewrite Forall_forall in HG. apply HG. eapply nth_error_In, E.
+  - split; [reflexivity|]. split; [exact I | apply dim_eq_refl].
+  - apply Rx_bin; auto using Rt_addsub.
+  - apply Rx_bin; auto using Rt_addsub.
+  - apply Rx_bin; auto using Rt_mul.
+  - apply Rx_bin; auto using Rt_div.
+  - assumption.
+  - apply Rx_sc1; auto using Rt_pow.
+  - apply Rx_sc1; auto using Rt_pow.
+  - apply Rx_sc1; auto using Rt_pow.
+  - apply Rx_sc1; auto. intros t x c ex. simpl. auto.
+  - apply Rx_sc1; auto using Rt_fn.
+  - apply Rx_bin; auto using Rt_mul.
+  - apply Rx_bin; auto using Rt_mul.
+  - destruct (typeofX G e) as [[s t]|], (dim_of (map sdecl G) e) as [[s' d]|]; simpl in IHe; try contradiction; [|exact I].
+    destruct IHe as (<- & c & ex). destruct s; simpl; auto.
+Qed.
+
+(* transparency of the extended language *)
+Section XErasure.
+  Variable V : Type.
+  Variables (vadd vsub vmul vdiv vinner vdyad : V -> V -> V) (vneg vsqrt vcbrt vabs velem : V -> V)
+            (vpow : Z -> positive -> V -> V) (vfn : nat -> V -> V) (vlit : nat -> V).
+  Variable G : list decl.
+  Variable env : nat -> V.
+  Notation qev := (qevalX V vadd vsub vmul vdiv vinner vdyad vneg vsqrt vcbrt vabs velem vpow vfn vlit G env).
+  Notation eev := (erase_evalX V vadd vsub vmul vdiv vinner vdyad vneg vsqrt vcbrt vabs velem vpow vfn vlit env).
+  Definition wrapX (t : option xty) (v : V) : option (xty * V) := match t with Some t => Some (t, v) | None => None end.
+  Lemma qbin_wrap fs ft f x y va vb : qbin V fs ft f (wrapX x va) (wrapX y vb) = wrapX (xbin fs ft x y) (f va vb).
+  Proof.
+    destruct x as [[s1 t1]|], y as [[s2 t2]|]; simpl; try reflexivity;
+      try (destruct (fs s1 s2), (ft t1 t2); reflexivity).
+  Qed.
+  Lemma qun_wrap g f x va : g None = None -> qun V g f (wrapX x va) = wrapX (g x) (f va).
+  Proof. intro Hg. destruct x as [t|]; simpl; [destruct (g (Some t)); reflexivity | now rewrite Hg]. Qed.
+  Lemma erasureX e : qev e = wrapX (typeofX G e) (eev e).
+  Proof.
+    induction e; simpl; try (rewrite IHe1, IHe2; apply qbin_wrap); try (rewrite IHe; apply qun_wrap; reflexivity).
+    - destruct (nth_error G i); reflexivity.
+    - reflexivity.
+  Qed.
+End XErasure.
+
+(* what is rejected *)
+Lemma fn_accepts G k a t : Forall wf_decl G -> typeofX G a = Some (Sc, t) ->
+  (typeofX G (XFn k a) <> None <-> dim_eq (ty_dim t) dim_one).
+Proof.
+  intros HG Ha. pose proof (typeofX_spec G a HG) as R. rewrite Ha in R. simpl. rewrite Ha. simpl.
+  destruct (dim_of (map sdecl G) a) as [[s d]|]; simpl in R; [|contradiction]. destruct R as (_ & c & _).
+  pose proof (Rt_fn t (ty_dim t) c (dim_eq_refl _)) as H. unfold d_fn in H.
+  destruct (ty_fn t), (dim_eqb (ty_dim t) dim_one) eqn:E; simpl in *; try contradiction.
+  - apply dim_eqb_spec in E. split; [intros _; exact E | intros _; discriminate].
+  - split; [intro X; now elim X | intro X; apply dim_eqb_spec in X; congruence].
+Qed.
+Lemma sum_accepts G a b s1 t1 s2 t2 : Forall wf_decl G -> typeofX G a = Some (s1, t1) -> typeofX G b = Some (s2, t2) ->
+  (typeofX G (XAdd a b) <> None <-> s1 = s2 /\ dim_eq (ty_dim t1) (ty_dim t2)) /\
+  (typeofX G (XSub a b) <> None <-> s1 = s2 /\ dim_eq (ty_dim t1) (ty_dim t2)).
+Proof.
+  intros HG Ha Hb. pose proof (typeofX_spec G a HG) as Ra. pose proof (typeofX_spec G b HG) as Rb. rewrite Ha in Ra. rewrite Hb in Rb.
+  destruct (dim_of (map sdecl G) a) as [[? ?]|]; simpl in Ra; [|contradiction]. destruct Ra as (_ & c1 & _).
+  destruct (dim_of (map sdecl G) b) as [[? ?]|]; simpl in Rb; [|contradiction]. destruct Rb as (_ & c2 & _).
+  pose proof (Rt_addsub t1 t2 _ _ c1 c2 (dim_eq_refl _) (dim_eq_refl _)) as H. unfold d_same in H.
+  assert (X : xbin shape_same ty_addsub (Some (s1, t1)) (Some (s2, t2)) <> None <-> s1 = s2 /\ dim_eq (ty_dim t1) (ty_dim t2)).
+  { simpl. destruct (dim_eqb (ty_dim t1) (ty_dim t2)) eqn:E.
+    - apply dim_eqb_spec in E. destruct (ty_addsub t1 t2); [|contradiction].
+      destruct s1, s2; simpl; split; try (intros _; split; [reflexivity | exact E]); try (intros X; now elim X); try (intros [X _]; discriminate X); intros _; discriminate.
+    - destruct (ty_addsub t1 t2); [contradiction|].
+      assert (~ dim_eq (ty_dim t1) (ty_dim t2)) by (intro X; apply dim_eqb_spec in X; congruence).
+      destruct (shape_same s1 s2); split; try (intro X; now elim X); intros [_ X]; contradiction. }
+  simpl. rewrite Ha, Hb. split; exact X.
+Qed.
+Lemma assign_acceptsX G i e d s t : Forall wf_decl G -> nth_error G i = Some d -> typeofX G e = Some (s, t) ->
+  (acceptsX G (XAssign i e) = true <-> d_mut d = true /\ d_shape d = s /\ dim_eq (ty_dim (d_ty d)) (ty_dim t)).
+Proof.
+  intros HG Hd He. pose proof (typeofX_spec G e HG) as R. rewrite He in R.
+  destruct (dim_of (map sdecl G) e) as [[? ?]|]; simpl in R; [|contradiction]. destruct R as (_ & c & _).
+  assert (cd : wf_ty (d_ty d)) by (rewrite Forall_forall in HG; eapply HG, nth_error_In, Hd).
+  simpl. rewrite Hd, He. rewrite !andb_true_iff.
+  assert (S1 : same_shape (d_shape d) s = true <-> d_shape d = s) by (unfold same_shape; destruct (d_shape d), s; simpl; split; congruence).
+  assert (S2 : storable (d_ty d) t = true <-> dim_eq (ty_dim (d_ty d)) (ty_dim t)).
+  { destruct (d_ty d) as [|U], t as [|u]; simpl in *; unfold is_none.
+    - split; [intros _; apply dim_eq_refl | reflexivity].
+    - rewrite u_eqb_eq. change dim_one with u_none. rewrite <- (canon_dim_eq u_none u canon_none (proj1 c)). split; congruence.
+    - rewrite u_eqb_eq. change dim_one with u_none. now rewrite <- (canon_dim_eq U u_none (proj1 cd) canon_none).
+    - rewrite u_eqb_eq. now rewrite <- (canon_dim_eq U u (proj1 cd) (proj1 c)). }
+  rewrite S1, S2. tauto.
+Qed.
+Lemma typeofX_wf G e s t : Forall wf_decl G -> typeofX G e = Some (s, t) ->
+  wf_ty t /\ exists d, dim_of (map sdecl G) e = Some (s, d) /\ dim_eq (ty_dim t) d.
+Proof.
+  intros HG He. pose proof (typeofX_spec G e HG) as R. rewrite He in R.
+  destruct (dim_of (map sdecl G) e) as [[s' d]|]; simpl in R; [|contradiction]. destruct R as (<- & c & ex).
+  split; [exact c | exists d; split; [reflexivity | exact ex]].
+Qed.
+Lemma typeofX_none G e : Forall wf_decl G -> (typeofX G e = None <-> dim_of (map sdecl G) e = None).
+Proof.
+  intros HG. pose proof (typeofX_spec G e HG) as R.
+  destruct (typeofX G e) as [[s t]|], (dim_of (map sdecl G) e) as [[s' d]|]; simpl in R; try contradiction; split; congruence.
+Qed.
+
+(* the extended layer is a conservative extension of the scalar one: scalar programs embedded into `xexpr` get the same type *)
+Fixpoint embed (e : expr) : xexpr :=
+  match e with
+  | Var i => XVar i
+  | Lit k => XLit k
+  | Add a b => XAdd (embed a) (embed b)
+  | Sub a b => XSub (embed a) (embed b)
+  | Mul a b => XMul (embed a) (embed b)
+  | Div a b => XDiv (embed a) (embed b)
+  | Neg a => XNeg (embed a)
+  | Pow n d a => XPow n d (embed a)
+  end.
+Definition sdecls (G : list unit) : list decl := map (fun u => mkdecl Sc (TQ u) true) G.
+Lemma embed_typeof G e : typeofX (sdecls G) (embed e) = option_map (pair Sc) (typeof G e).
+Proof.
+  induction e; simpl; try rewrite IHe1, IHe2; try rewrite IHe.
+  - unfold sdecls. rewrite nth_error_map. destruct (nth_error G i); reflexivity.
+  - reflexivity.
+  - destruct (typeof G e1) as [x|], (typeof G e2) as [y|]; simpl; try reflexivity; try (destruct (ty_addsub x y); reflexivity).
+  - destruct (typeof G e1) as [x|], (typeof G e2) as [y|]; simpl; try reflexivity; try (destruct (ty_addsub x y); reflexivity).
+  - destruct (typeof G e1) as [[|u]|], (typeof G e2) as [[|v]|]; reflexivity.
+  - destruct (typeof G e1) as [[|u]|], (typeof G e2) as [[|v]|]; reflexivity.
+  - reflexivity.
+  - destruct (typeof G e) as [[|u]|]; reflexivity.
+Qed.
